@@ -708,6 +708,9 @@ class TypeTransformer:
             if not t.__forward_evaluated__:
                 raise TypeError(f"ForwardRef: {t} not evaluated")
             t = t.__forward_value__
+        # the converter captured when the type was declared may have been superseded by a later
+        # registration: resolve again (memoised), the captured one is only the fallback
+        func = self.resolver_transformer(t) or func
         return func(self, data, t)
 
     def __call__(self, data, t: Type[T]) -> T:
